@@ -55,27 +55,18 @@ theorem int_truncates_toward_zero (n : Bool) (m : Nat) (e : Int) (p : Nat) (hN :
       q * 2 ^ (-e).toNat < m ∧ m < (q + 1) * 2 ^ (-e).toNat :=
   int_frac n m e p hN he
 
-/-- Full statement "`int` fails only outside its documented domain — an infinity
-is an *error*": FALSE of the code, `IntFunc` panics on an infinity (a
-`PanicError` from `Function.Call`; only the Go-level wrapper `stdlib.Int` guards
-the two package singletons). -/
-def IntNeverPanics : Prop := ∀ x : Num, (intImpl [numVal x]).isPanic = false
+/-- `int` leaves ±infinity fixed (an infinity has no fractional part to discard) … -/
+theorem int_inf_fixed (n : Bool) : intImpl [numVal (.inf n)] = .ok (numVal (.inf n)) := by
+  simp [intImpl, Num.isInf, Num.isInt]
 
-theorem int_never_panics_partial (x : Num) (h : x.isInf = false) : (intImpl [numVal x]).isPanic = false := by
+/-- … and never panics on a number. -/
+theorem int_never_panics (x : Num) : (intImpl [numVal x]).isPanic = false := by
   cases x with
-  | inf n => simp [Num.isInf] at h
+  | inf n => rw [int_inf_fixed]; rfl
   | fin n m e p =>
     by_cases hi : (Num.fin n m e p).isInt = true
     · rw [int_whole _ hi]; rfl
-    · simp [intImpl, hi, Num.truncInt, Res.isPanic]
-
-theorem int_inf_counterexample : intImpl [numVal (.inf false)] = .panic "nil pointer dereference" := rfl
-
-theorem intNeverPanics_false : ¬ IntNeverPanics := by
-  intro h
-  have := h (.inf false)
-  rw [int_inf_counterexample] at this
-  simp [Res.isPanic] at this
+    · simp [intImpl, hi, Num.truncInt, Num.isInf, Res.isPanic]
 
 /-- `signum` on a whole number in the int64 range is −1 / 0 / 1 by its sign. -/
 theorem signum_partial (x : Num) (k : Int) (h : Gocty.int64Exact x = some k) :
@@ -268,25 +259,23 @@ theorem coalesce_first_non_null (t : Ty) (nulls : List Value) (v : Value) (rest 
     rw [List.append_nil] at this
     rw [this]; rfl
 
-/-- `log` / `pow` return `NumberFloatVal` of the library's float64 answer … -/
-theorem log_pow_glue (lib : Num → Num → F64) (a b x y r : Num)
-    (ha : fromCtyFloat (numVal a) = .ok x) (hb : fromCtyFloat (numVal b) = .ok y) (hr : lib x y = .num r) :
-    logImpl lib [numVal a, numVal b] = .ok (numVal r) ∧ powImpl lib [numVal a, numVal b] = .ok (numVal r) := by
-  simp [logImpl, powImpl, ha, hb, hr, numberFloatVal]
+/-- `log` / `pow` return `NumberFloatVal` of the library's float64 answer; a NaN
+answer (log of a negative number, 0/0, a negative base with a fractional
+exponent) is an ordinary error. -/
+theorem log_pow_glue (lib : Num → Num → F64) (a b x y : Num)
+    (ha : fromCtyFloat (numVal a) = .ok x) (hb : fromCtyFloat (numVal b) = .ok y) :
+    (∀ r, lib x y = .num r →
+      logImpl lib [numVal a, numVal b] = .ok (numVal r) ∧ powImpl lib [numVal a, numVal b] = .ok (numVal r)) ∧
+    (lib x y = .nan →
+      logImpl lib [numVal a, numVal b] = .err "the logarithm is not a real number" ∧
+      powImpl lib [numVal a, numVal b] = .err "the power is not a real number") := by
+  constructor
+  · intro r hr; simp [logImpl, powImpl, ha, hb, hr, numberFloatVal]
+  · intro hr; simp [logImpl, powImpl, ha, hb, hr]
 
-/-- … and the full statement "a NaN answer (log of a negative number, 0/0, …) is an
-error" is FALSE of the code: `big.Float.SetFloat64(NaN)` panics inside Impl. -/
-def LogPowNeverPanic : Prop :=
-  ∀ (lib : Num → Num → F64) (a b : Num), (logImpl lib [numVal a, numVal b]).isPanic = false ∧
-    (powImpl lib [numVal a, numVal b]).isPanic = false
-
-theorem log_pow_never_panic_partial (lib : Num → Num → F64) (a b : Num) (h : ∀ x y, lib x y ≠ .nan) :
+/-- `log` / `pow` never panic, whatever the math library answers. -/
+theorem log_pow_never_panic (lib : Num → Num → F64) (a b : Num) :
     (logImpl lib [numVal a, numVal b]).isPanic = false ∧ (powImpl lib [numVal a, numVal b]).isPanic = false := by
-  have key : ∀ x y, (numberFloatVal (lib x y)).isPanic = false := by
-    intro x y
-    cases hl : lib x y with
-    | nan => exact absurd hl (h x y)
-    | num r => rfl
   have hf : ∀ v : Num, (∃ z, fromCtyFloat (numVal v) = .ok z) ∨ (∃ c, fromCtyFloat (numVal v) = .err c) := by
     intro v
     simp only [fromCtyFloat, numVal, Gocty.fromNumFloat]
@@ -294,24 +283,16 @@ theorem log_pow_never_panic_partial (lib : Num → Num → F64) (a b : Num) (h :
   constructor
   · rcases hf a with ⟨x, hx⟩ | ⟨c, hx⟩
     · rcases hf b with ⟨y, hy⟩ | ⟨c', hy⟩
-      · simp only [logImpl, arg0, arg1, Res.bind_ok, hx, hy]; exact key x y
+      · simp only [logImpl, arg0, arg1, Res.bind_ok, hx, hy]
+        cases lib x y <;> rfl
       · simp [logImpl, hx, hy, Res.isPanic]
     · simp [logImpl, hx, Res.isPanic]
   · rcases hf a with ⟨x, hx⟩ | ⟨c, hx⟩
     · rcases hf b with ⟨y, hy⟩ | ⟨c', hy⟩
-      · simp only [powImpl, arg0, arg1, Res.bind_ok, hx, hy]; exact key x y
+      · simp only [powImpl, arg0, arg1, Res.bind_ok, hx, hy]
+        cases lib x y <;> rfl
       · simp [powImpl, hx, hy, Res.isPanic]
     · simp [powImpl, hx, Res.isPanic]
-
-/-- the witness: the library answers NaN (log(−1, 10)) -/
-theorem log_nan_counterexample :
-    logImpl (fun _ _ => .nan) [numVal (.fin true 1 0 64), numVal (.fin false 5 1 64)] = .panic "ErrNaN" := rfl
-
-theorem logPowNeverPanic_false : ¬ LogPowNeverPanic := by
-  intro h
-  have := (h (fun _ _ => .nan) (.fin true 1 0 64) (.fin false 5 1 64)).1
-  rw [log_nan_counterexample] at this
-  simp [Res.isPanic] at this
 
 /-! ## Strings on grapheme clusters -/
 
@@ -363,12 +344,6 @@ theorem substr_value (nfc : String → String) (clusters : String → List Strin
 
 /-! ## Library glue -/
 
-/-- a known string argument -/
-abbrev sv (s : String) : Value := ⟨.string, .s s⟩
-
-@[simp] theorem asString_sv (s : String) : asString (sv s) = .ok s := by
-  simp [asString, Value.isMarked, Payload.isMarked, Ty.isString]
-
 /-- What each glue function does: which library call, with which argument order,
 and `cty.StringVal` (NFC) / list construction around it. -/
 theorem glue_eq (L : Lib) (a b c : String) :
@@ -390,32 +365,6 @@ theorem glue_eq (L : Lib) (a b c : String) :
     simp [upperImpl, lowerImpl, titleImpl, trimSpaceImpl, trimImpl, trimPrefixImpl, trimSuffixImpl, replaceImpl,
       splitImpl, regexReplaceImpl, chompImpl]
   cases L.regexCompile b <;> rfl
-
-/-- the date verbs never panic -/
-theorem verbText_no_panic (t : Time) (c : Char) (n : Nat) : (verbText t c n).isPanic = false := by
-  unfold verbText
-  repeat' split
-  all_goals rfl
-
-theorem tokenText_no_panic (t : Time) (tok : List Char) : (tokenText t tok).isPanic = false := by
-  unfold tokenText
-  split
-  · rfl
-  · repeat' split
-    all_goals first | rfl | exact verbText_no_panic _ _ _
-
-theorem formatTokens_no_panic (t : Time) (toks : List (List Char)) (buf : String) :
-    (formatTokens t toks buf).isPanic = false := by
-  induction toks generalizing buf with
-  | nil => rfl
-  | cons tok rest ih =>
-    simp only [formatTokens]
-    have h := tokenText_no_panic t tok
-    cases hx : tokenText t tok with
-    | ok s => simp [ih]
-    | err c => rfl
-    | panic w => rw [hx] at h; simp [Res.isPanic] at h
-    | unmodelled => rfl
 
 /-- `glue_total`: on known string arguments the cty layer of these functions adds no
 panic, whatever the libraries answer. -/
@@ -449,25 +398,30 @@ theorem glue_total (L : Lib) (a b c : String) :
     · rfl
     · split <;> rfl
 
-/-- Full statement of `glue_total` for `indent`: FALSE of the code — a negative count
-reaches `strings.Repeat`, which panics. -/
-def IndentNeverPanics : Prop := ∀ (nfc : String → String) (spaces : Value) (s : String),
-  (indentImpl nfc [spaces, sv s]).isPanic = false
+/-- `indent` rejects a negative number of spaces with an error (it does not reach
+`strings.Repeat`, which would panic) … -/
+theorem indent_negative_is_error (nfc : String → String) (spaces : Value) (s : String) (k : Int)
+    (hk : fromCtyInt spaces = .ok k) (h0 : k < 0) :
+    indentImpl nfc [spaces, sv s] = .err "the number of spaces must not be negative" := by
+  simp [indentImpl, hk, h0]
 
-theorem indent_total_partial (nfc : String → String) (spaces : Value) (s : String) (k : Int)
-    (hk : fromCtyInt spaces = .ok k) (h0 : 0 ≤ k) : (indentImpl nfc [spaces, sv s]).isPanic = false := by
-  have : ¬ k < 0 := by omega
-  simp only [indentImpl, arg0, arg1, Res.bind_ok, hk, asString_sv, this, if_false]
-  split <;> rfl
-
-theorem indent_counterexample :
-    indentImpl id [intVal (-1), sv ""] = .panic "strings: negative Repeat count" := rfl
-
-theorem indentNeverPanics_false : ¬ IndentNeverPanics := by
-  intro h
-  have := h id (intVal (-1)) ""
-  rw [indent_counterexample] at this
-  simp [Res.isPanic] at this
+/-- … so `glue_total` holds for `indent` too: no panic for any count. -/
+theorem indent_never_panics (nfc : String → String) (x : Num) (s : String) :
+    (indentImpl nfc [numVal x, sv s]).isPanic = false := by
+  have hf : (∃ k, fromCtyInt (numVal x) = .ok k) ∨ (∃ c, fromCtyInt (numVal x) = .err c) := by
+    simp only [fromCtyInt, numVal, Gocty.fromNumInt, Gocty.intMinMax]
+    split
+    · right; exact ⟨_, rfl⟩
+    · split
+      · right; exact ⟨_, rfl⟩
+      · left; exact ⟨_, rfl⟩
+  rcases hf with ⟨k, hk⟩ | ⟨c, hk⟩
+  · simp only [indentImpl, arg0, arg1, Res.bind_ok, hk]
+    split
+    · rfl
+    · simp only [asString_sv, Res.bind_ok]
+      split <;> rfl
+  · simp [indentImpl, hk, Res.isPanic]
 
 /-- `indent` inserts exactly `k` spaces after every newline and changes nothing else. -/
 theorem indent_structure (nfc : String → String) (spaces : Value) (s : String) (k : Int)
